@@ -164,10 +164,10 @@ Definition hdrs (kk : tkey) (k k' : nat) : list row :=
   then [header (iota (S (Z.to_nat (key_rank kk)))) (Z.to_nat (key_rank kk))] else [].
 
 (* kinds whose rows are addressed against the reference space by the nest theorems below
-   (the destination side of populate is excluded; intersect_<l> is addressed at generator
-   level: C16_intersect_rows / C16_intersect_rows_b) *)
-Definition addr_scope (tr : tkey -> bool) (kk : tkey) : bool :=
-  negb (is_zside (key_kind kk)) && negb (key_kind kk =? K_INT).
+   (zs = false: the destination side of populate is excluded; intersect_<l> only when the trace
+   is registered - an unregistered one is never written) *)
+Definition addr_scope (zs : bool) (tr : tkey -> bool) (kk : tkey) : bool :=
+  (zs || negb (is_zside (key_kind kk))) && (negb (key_kind kk =? K_INT) || tr kk).
 
 Definition expect_rows (i : nat) (lv : list level) (pe : list (list Z * env)) (kk : tkey) : list row :=
   let j := Z.to_nat (key_rank kk) in
@@ -176,42 +176,42 @@ Definition expect_rows (i : nat) (lv : list level) (pe : list (list Z * env)) (k
            (space lv (j - i) pe).
 
 (* rows of a trace of rank j >= i produced below the points pe of length i *)
-Definition deep_ok (tr : tkey -> bool) (i : nat) (P : list Z) (lv : list level) (pe : list (list Z * env))
+Definition deep_ok (zs : bool) (tr : tkey -> bool) (i : nat) (P : list Z) (lv : list level) (pe : list (list Z * env))
   (kk : tkey) (data : list row) : Prop :=
   let j := Z.to_nat (key_rank kk) in
   Forall (fun rw => firstn i rw = P /\ length rw = (2 * S j + 1)%nat) data
   /\ chain (stampR (key_kind kk)) (map (firstn (S j)) data) = true
-  /\ (addr_scope tr kk = true -> (j < i + dr lv pe)%nat ->
+  /\ (addr_scope zs tr kk = true -> (j < i + dr lv pe)%nat ->
       map (skipn (S j)) data = expect_rows i lv pe kk)
   /\ ((i + dr lv pe <= j)%nat -> data = []).
 
-Definition rows_ok (tr : tkey -> bool) (i : nat) (P : list Z) (lv : list level) (pt : list Z) (e : env)
+Definition rows_ok (zs : bool) (tr : tkey -> bool) (i : nat) (P : list Z) (lv : list level) (pt : list Z) (e : env)
   (kk : tkey) (data : list row) : Prop :=
   (key_rank kk < Z.of_nat i -> data = [])
-  /\ (Z.of_nat i <= key_rank kk -> deep_ok tr i P lv [(pt, e)] kk data).
+  /\ (Z.of_nat i <= key_rank kk -> deep_ok zs tr i P lv [(pt, e)] kk data).
 
-Definition spec (tr : tkey -> bool) (n : Z) (i : nat) (lv : list level) (pt : list Z) (e : env) (evs : list mev) : Prop :=
+Definition spec (zs : bool) (tr : tkey -> bool) (n : Z) (i : nat) (lv : list level) (pt : list Z) (e : env) (evs : list mev) : Prop :=
   forall k P st, shape i k P pt st ->
     let st' := exec n st evs in
     let k' := Nat.max k (i + dr lv [(pt, e)]) in
     shape i k' P pt st'
     /\ (forall j, (j < i)%nat -> slot j st' = slot j st)
-    /\ forall kk, exists data, emits n st evs kk = hdrs kk k k' ++ data /\ rows_ok tr i P lv pt e kk data.
+    /\ forall kk, exists data, emits n st evs kk = hdrs kk k k' ++ data /\ rows_ok zs tr i P lv pt e kk data.
 
 (* rows of rank j > i collected over several trips of the level-i loop, own counter in [lo, hi) *)
-Definition blocks_ok (tr : tkey -> bool) (i : nat) (P : list Z) (lo hi : Z) (lv' : list level)
+Definition blocks_ok (zs : bool) (tr : tkey -> bool) (i : nat) (P : list Z) (lo hi : Z) (lv' : list level)
   (pe : list (list Z * env)) (kk : tkey) (data : list row) : Prop :=
   let j := Z.to_nat (key_rank kk) in
   Forall (fun rw => (exists w, lo <= w < hi /\ firstn (S i) rw = P ++ [w])
                     /\ length rw = (2 * S j + 1)%nat) data
   /\ chain (stampR (key_kind kk)) (map (firstn (S j)) data) = true
-  /\ (addr_scope tr kk = true -> (j < S i + dr lv' pe)%nat ->
+  /\ (addr_scope zs tr kk = true -> (j < S i + dr lv' pe)%nat ->
       map (skipn (S j)) data = expect_rows (S i) lv' pe kk)
   /\ ((S i + dr lv' pe <= j)%nat -> data = []).
 
-Definition item_ok (tr : tkey -> bool) (n : Z) (i : nat) (lv' : list level) (pt : list Z) (it : item) : Prop :=
+Definition item_ok (zs : bool) (tr : tkey -> bool) (n : Z) (i : nat) (lv' : list level) (pt : list Z) (it : item) : Prop :=
   Forall (local i) (it_pre it) /\ Forall (local i) (it_post it)
-  /\ spec tr n (S i) lv' (pt ++ [it_c it]) (it_env it) (it_body it).
+  /\ spec zs tr n (S i) lv' (pt ++ [it_c it]) (it_env it) (it_body it).
 
 Definition skel (i : nat) (it : item) : list mev :=
   it_pre it ++ [EUse (Z.of_nat i) (it_c it) (it_j it) K_ITER 0] ++ [EInc (Z.of_nat i)] ++ it_post it.
@@ -266,8 +266,8 @@ Proof.
   exfalso. apply Hn. apply dr_space. split; auto. rewrite E. discriminate.
 Qed.
 
-Lemma GL_items : forall tr n i P pt lv' items, length P = i -> length pt = i ->
-  Forall (item_ok tr n i lv' pt) items ->
+Lemma GL_items : forall zs tr n i P pt lv' items, length P = i -> length pt = i ->
+  Forall (item_ok zs tr n i lv' pt) items ->
   forall k a st, lshape i k P (fst a) pt st -> Rs i P (snd a) st ->
   lsafe a (skels i items) = true ->
   let evs := flat_items (Z.of_nat i) items in
@@ -282,9 +282,9 @@ Lemma GL_items : forall tr n i P pt lv' items, length P = i -> length pt = i ->
         emits n st evs kk = map (mkrow P pt) (ltrace a (skels i items) (key_kind kk) (key_label kk)))
     /\ (Z.of_nat i < key_rank kk -> exists data,
         emits n st evs kk = hdrs kk k k' ++ data
-        /\ blocks_ok tr i P (fst a) (fst a') lv' (children pt items) kk data).
+        /\ blocks_ok zs tr i P (fst a) (fst a') lv' (children pt items) kk data).
 Proof.
-  intros tr n i P pt lv' items LP Lpt HI. induction HI as [|it items Hit HI IH]; intros k a st Hs HR Hsafe.
+  intros zs tr n i P pt lv' items LP Lpt HI. induction HI as [|it items Hit HI IH]; intros k a st Hs HR Hsafe.
   - cbv zeta. cbn [flat_items flat_map skels children map exec fold_left lfinal emits ltrace].
     rewrite dr_nil. pose proof Hs as (_ & Hik & _).
     replace (Nat.max k (S i + 0)) with k by lia.
@@ -458,28 +458,28 @@ Proof.
   - rewrite !app_length. cbn. lia.
 Qed.
 
-Definition loc_ok (tr : tkey -> bool) (i : nat) (L : level) (pt : list Z) (e : env) (sk : list mev) : Prop :=
+Definition loc_ok (zs : bool) (tr : tkey -> bool) (i : nat) (L : level) (pt : list Z) (e : env) (sk : list mev) : Prop :=
   forall kind label,
     let lrows := ltrace (0, None) sk kind label in
     chain (stampR kind) (map (fun x => [fst (fst x)]) lrows) = true
-    /\ (addr_scope tr (Z.of_nat i, kind, label) = true ->
+    /\ (addr_scope zs tr (Z.of_nat i, kind, label) = true ->
         map (fun x => pt ++ [snd (fst x); snd x]) lrows = expect_at L false kind label [] [] pt e).
 
-Lemma GL : forall tr n i L lv' pt e items fin, length pt = i ->
-  Forall (item_ok tr n i lv' pt) items -> Forall (local i) fin ->
+Lemma GL : forall zs tr n i L lv' pt e items fin, length pt = i ->
+  Forall (item_ok zs tr n i lv' pt) items -> Forall (local i) fin ->
   children pt items = kids L (pt, e) ->
   lsafe (0, None) (skels i items ++ fin) = true ->
-  loc_ok tr i L pt e (skels i items ++ fin) ->
-  spec tr n i (L :: lv') pt e
+  loc_ok zs tr i L pt e (skels i items ++ fin) ->
+  spec zs tr n i (L :: lv') pt e
        ([EReg (Z.of_nat i)] ++ flat_items (Z.of_nat i) items ++ fin ++ [EEnd (Z.of_nat i)]).
 Proof.
-  intros tr n i L lv' pt e items fin Lpt HI Hfin Hch Hsafe Hloc k P st Hsh.
+  intros zs tr n i L lv' pt e items fin Lpt HI Hfin Hch Hsafe Hloc k P st Hsh.
   pose proof Hsh as (_ & Hik & LP & _).
   set (r := Z.of_nat i) in *.
   destruct (step_reg n i k P pt st Hsh) as (S1 & V1 & E1). fold r in S1, V1, E1.
   set (st1 := step n st (EReg r)) in *. set (k1 := Nat.max k (S i)) in *.
   rewrite lsafe_app in Hsafe. apply andb_true_iff in Hsafe. destruct Hsafe as [Hsf2 Hsf3].
-  destruct (GL_items tr n i P pt lv' items LP Lpt HI k1 (0, None) st1 S1 I Hsf2) as (S2 & R2 & K2 & E2).
+  destruct (GL_items zs tr n i P pt lv' items LP Lpt HI k1 (0, None) st1 S1 I Hsf2) as (S2 & R2 & K2 & E2).
   fold r in S2, R2, K2, E2.
   set (a2 := lfinal (0, None) (skels i items)) in *.
   set (st2 := exec n st1 (flat_items r items)) in *.
